@@ -7,7 +7,7 @@ from typing import Callable
 
 replacements = {"!": " not ", "^": " and ", "v": " or "}
 
-pattern = re.compile(r"\!(?!=)|\^|\bv\b")
+pattern = re.compile(r"""'[^']*'|"[^"]*"|\!(?!=)|\^|\bv\b""")
 
 comparison_repr = {
     operator.eq: "==",
@@ -28,7 +28,9 @@ def _unique_key(left, right, operator) -> str:
 def replace_operators(expr: str) -> str:
     # preprocess the expression adding support for classical logical operators
     def match_func(match):
-        return replacements[match.group(0)]
+        token = match.group(0)
+        # string literals are matched only to be left untouched
+        return replacements.get(token, token)
 
     return pattern.sub(match_func, expr)
 
